@@ -186,7 +186,11 @@ class StopProfile(OpProfile):
         # scheduler state that decides whether it may shut down
         wait = bool(w.running and getattr(
             w.schd, 'is_restart_timeout_wait', False))
-        return (super().extra_key(w), wait)
+        # ... and so is the pool's "stop task has finished" flag (set when
+        # the stop task finishes, consumed by the next shutdown check)
+        stf = bool(w.running and getattr(
+            getattr(w.schd, 'pool', None), 'stop_task_finished', False))
+        return (super().extra_key(w), wait, stf)
 
     def operator_events(self, w):
         # a stop is only offered while a restart can still follow it
